@@ -857,9 +857,9 @@ def prepare_iter_for_array(
                 has_str = True
             else:
                 has_non_str = True
-                if value_type in INEXACT_TYPES:
+                if issubclass(value_type, INEXACT_TYPES): # np.float64 is not equal to, but a subclass of, float and np.inexact
                     has_inexact = True
-                elif value_type == int and abs(v) > INT_MAX_COERCIBLE_TO_FLOAT:
+                elif issubclass(value_type, INT_TYPES) and value_type not in BOOL_TYPES and abs(v) > INT_MAX_COERCIBLE_TO_FLOAT:
                     has_big_int = True
 
             if has_tuple or has_enum or (has_str and has_non_str):
